@@ -191,13 +191,26 @@ Fixpoint tlistn (xs : list term) : term :=
 Definition struct_ntag (n : nat) : term := TAtom (AInt (Z.of_nat n)).
 Definition slice_ntag (n : nat) : term := TAtom (AInt (- Z.of_nat n - 1)).
 
+(* the untyped nil interface (an interface-typed field holding nothing) is a constant of its own *)
+Definition nil_iface_atom : atom := ASym 0.
+
+(* a field / element / map value as reflecttools hands it on (Value.Interface()): an interface-typed slot is transparent *)
 Fixpoint tenc (x : gval) : option term :=
   let fix tencs (l : list gval) : option (list term) :=
     match l with
     | [] => Some []
-    | a :: r => match tenc a, tencs r with Some t, Some ts => Some (t :: ts) | _, _ => None end
+    | a :: r =>
+        match (match a with
+               | GIface (GIface _) | GIface GNil => None
+               | GIface v => tenc v
+               | _ => tenc a
+               end), tencs r with
+        | Some t, Some ts => Some (t :: ts)
+        | _, _ => None
+        end
     end in
   match x with
+  | GNil => Some (TAtom nil_iface_atom)
   | GNilPtr => Some TNil
   | GPtr (GScalar k z) =>
       if (z <? 0)%Z then None
@@ -210,10 +223,17 @@ Fixpoint tenc (x : gval) : option term :=
   | _ => None
   end.
 
+Definition tslot (a : gval) : option term :=
+  match a with
+  | GIface (GIface _) | GIface GNil => None
+  | GIface v => tenc v
+  | _ => tenc a
+  end.
+
 Fixpoint tencs (l : list gval) : option (list term) :=
   match l with
   | [] => Some []
-  | a :: r => match tenc a, tencs r with Some t, Some ts => Some (t :: ts) | _, _ => None end
+  | a :: r => match tslot a, tencs r with Some t, Some ts => Some (t :: ts) | _, _ => None end
   end.
 
 
